@@ -21,9 +21,16 @@ def run(chk, program, tier):
     K.rx_rules(chk, program)
     K.q_fifo(chk, program)
     K.rx_frame(chk, program)
-    K.ser_state(chk, program)
+    from .. import rules_serial as RS
+    from ..rules_reasm import _ConfirmOnly
+    RS.decide(chk, program, tier, ['BUF-PROGRESS', 'SER-DELIVER', 'SER-STATE'])
+    co = _ConfirmOnly(chk, {'SER-STATE'})
+    try:
+        K.ser_state(co, program)
+    except Exception as e:
+        co.unrecognised.append(str(e))
+    chk.unit('ser_state_shapes_not_recognised', co.unrecognised[:4])
     K.rx_raise(chk, program)
     K.handler_cannot_raise(chk, program)
     # consumption of the serial buffer: same clause as C20 BUF-PROGRESS (every iteration removes exactly through start + P)
     from .c16 import _Sub
-    K.buf_rules(_Sub(chk, {'BUF-PROGRESS', 'SER-DELIVER'}), program)
